@@ -5,6 +5,7 @@ import (
 	"errors"
 	"fmt"
 	"io"
+	"math"
 
 	"github.com/Tnze/go-mc/nbt"
 )
@@ -44,11 +45,12 @@ func (v *Value) UnmarshalNBT(tagType byte, r nbt.DecoderReader) error {
 		if err != nil {
 			return err
 		}
-		if n < 0 {
-			return errors.New("byte array length less than 0")
+		size := int64(n) + 4
+		if n < 0 || size > math.MaxInt {
+			return errors.New("byte array length out of range")
 		}
 
-		v.data = append(v.data[:0], make([]byte, 4+int(n))...)
+		v.data = append(v.data[:0], make([]byte, int(size))...)
 		binary.BigEndian.PutUint32(v.data, uint32(n))
 
 		_, err = io.ReadFull(r, v.data[4:])
@@ -126,11 +128,12 @@ func (v *Value) UnmarshalNBT(tagType byte, r nbt.DecoderReader) error {
 		if err != nil {
 			return err
 		}
-		if n < 0 {
-			return errors.New("int array length less than 0")
+		size := int64(n)*4 + 4
+		if n < 0 || size > math.MaxInt {
+			return errors.New("int array length out of range")
 		}
 
-		v.data = append(v.data[:0], make([]byte, 4+int(n)*4)...)
+		v.data = append(v.data[:0], make([]byte, int(size))...)
 		binary.BigEndian.PutUint32(v.data, uint32(n))
 
 		_, err = io.ReadFull(r, v.data[4:])
@@ -143,11 +146,12 @@ func (v *Value) UnmarshalNBT(tagType byte, r nbt.DecoderReader) error {
 		if err != nil {
 			return err
 		}
-		if n < 0 {
-			return errors.New("long array length less than 0")
+		size := int64(n)*8 + 4
+		if n < 0 || size > math.MaxInt {
+			return errors.New("long array length out of range")
 		}
 
-		v.data = append(v.data[:0], make([]byte, 4+int(n)*8)...)
+		v.data = append(v.data[:0], make([]byte, int(size))...)
 		binary.BigEndian.PutUint32(v.data, uint32(n))
 
 		_, err = io.ReadFull(r, v.data[4:])
